@@ -92,9 +92,10 @@ def decode_all(defn, pkts):
         for p in pkts:
             try:
                 items = list(defn.packet_generator(p, yield_unrecognized_packet_errors=True))
-                out.append(tuple(xf.canon_item(i) for i in items))
             except Exception as e:      # deterministic decoder errors are part of the meaning too
                 out.append(("RAISES", type(e).__name__))
+                continue
+            out.append(tuple(xf.canon_item(i) for i in items))      # (harness code: outside the try)
     return tuple(out)
 
 
